@@ -15,6 +15,15 @@ from . import common
 
 ID = 'C15'
 LEVEL = 'fault_enumeration'
+# scenario variants and fault kinds mixed into the seeded part (reported in
+# the evidence; DESIGN 14.6 says where each came from)
+VARIANTS = [
+    "FIN and RST at every offset",
+    "default version outside the allowed set",
+    "every status query of the run cut",
+    "completed status() before the negotiating connect()",
+    "kick conversation with answers still owed"
+]
 WALL_CAP = {'quick': 240, 'thorough': 3000}
 EOF_READ_LIMIT = 16
 
